@@ -109,7 +109,7 @@ func extremeShapes(tier string) [][2]int {
 				s = append(s, [2]int{w, h})
 			}
 		}
-		s = append(s, [][2]int{{65536, 1}, {1, 65536}, {1 << 10, 1 << 10}, {3 << 9, 5}, {1000, 1000}}...)
+		s = append(s, [][2]int{{65536, 1}, {1, 65536}, {256, 256}, {3 << 9, 5}, {1000, 10}, {10, 1000}}...)
 	}
 	return s
 }
@@ -253,7 +253,7 @@ func extremeScripts(w, h int, yield func(ops []Op) bool) bool {
 var specExtreme = pbt.Register(&pbt.Spec[Case]{
 	Property: "C08", Name: "C08.extreme",
 	Rule: "enumerated, element type int: shapes 1..6 x 1..6 and 26 more (zero-dim, 8x3, 16x2, 2x16, 12x12, 64x64, 64x3, 3x64, 100x7, 255/256/257x3, 1024x2, 4096x1, ...; thorough " +
-		"also 7..20 x 1..19 and up to 1000x1000); on each, after every cell got its own value: (a) Get and Set with x inside and y extreme, x extreme and y inside, both extreme; " +
+		"also 7..20 x 1..19, 65536x1, 1x65536, 256x256, 1536x5, 1000x10, 10x1000); on each, after every cell got its own value: (a) Get and Set with x inside and y extreme, x extreme and y inside, both extreme; " +
 		"(b) Row, RowSpan and Fill with each single argument extreme and the others inside; (c) SOLVED coordinates: for a set of target cells t (all cells of grids up to 24 cells, " +
 		"else 19 spread over the store) the y outside the bounds with x + y*width == t in wrapping 64-bit arithmetic (all 2^s variants tried when 2^s divides the width: j = 0,1,2,3,2^s-1, " +
 		"2^(s-1)+-1), used in Get, Set, Row, RowSpan and Fill, and the x for extreme y with the same property. extreme = MaxInt, MinInt, +-2^k and +-2^k+-1 for k = 31, 32, 62, " +
